@@ -162,6 +162,71 @@ fn deromaniser_case(kind: usize, ws: &[CW], a: &mut Acc) {
     }
 }
 
+// ---- `+` deromanisers with a bare matrix: "payload added to the previously calculated segment" (doc.md §Plus Operator)
+/// (matrix text, feature changes (index into FEATS, value), length op, stress, tone)
+/// length op: 0 none, 1 `+long` (at least long), 2 `-long`, 3 `+overlong`, 4 `-overlong` (at most long), 5 `+long, -overlong`, 6 `-long, -overlong`, 7 `+long, +overlong`
+const PLUS_MATRICES: [(&str, &[(usize, bool)], u8, Option<u8>, Option<u16>); 17] = [
+    ("[+nasal]", &[(6, true)], 0, None, None), ("[+voice]", &[(11, true)], 0, None, None), ("[-voice]", &[(11, false)], 0, None, None), ("[+nasal, -voice]", &[(6, true), (11, false)], 0, None, None),
+    ("[+long]", &[], 1, None, None), ("[-long]", &[], 2, None, None), ("[+overlong]", &[], 3, None, None), ("[-overlong]", &[], 4, None, None), ("[+long, -overlong]", &[], 5, None, None), ("[-long, -overlong]", &[], 6, None, None), ("[+long, +overlong]", &[], 7, None, None),
+    ("[+stress]", &[], 0, Some(1), None), ("[-stress]", &[], 0, Some(0), None), ("[tone: 5]", &[], 0, None, Some(5)),
+    ("[+nasal, +long]", &[(6, true)], 1, None, None), ("[+stress, -long]", &[], 2, Some(1), None), ("[+voice, -overlong, tone: 51]", &[(11, true)], 4, None, Some(51)),
+];
+
+fn run_lengths(sy: &CSyl) -> Vec<(usize, usize)> { let mut v = vec![]; let mut i = 0; while i < sy.segs.len() { let mut j = i + 1; while j < sy.segs.len() && sy.segs[j] == sy.segs[i] { j += 1; } v.push((i, j - i)); i = j; } v }
+
+/// the word typed with the marker `M` after logical segment number `target` (counted over the whole word), and the word it stands for
+fn plus_case(w: &CW, target: usize, m: usize) -> Option<(String, CW)> {
+    let (_, feats, lop, stress, tone) = PLUS_MATRICES[m];
+    let mut text = String::new();
+    let mut exp: CW = vec![];
+    let mut n = 0usize; let mut hit = false;
+    for (si, sy) in w.iter().enumerate() {
+        text += match sy.stress { 1 => "ˈ", 2 => "ˌ", _ => if si > 0 { "." } else { "" } };
+        let mut esy = CSyl { segs: vec![], stress: sy.stress, tone: sy.tone };
+        for (start, len) in run_lengths(sy) {
+            let one: CW = vec![CSyl { segs: sy.segs[start..start + len].to_vec(), stress: 0, tone: 0 }];
+            text += &av::render_word(&word_of(&one), None);
+            let mut b = sy.segs[start]; let mut l = len;
+            if n == target {
+                hit = true; text.push('M');
+                for (f, v) in feats { b = model::set_feat(b, *f, *v); }
+                l = match lop { 0 => len, 1 => len.max(2), 2 | 6 => 1, 3 | 7 => 3, 4 => len.min(2), _ => 2 };
+                if let Some(s) = stress { esy.stress = s; }
+                // a tone typed at the end of the same syllable comes after the marker; which of the two wins is not documented
+                if let Some(t) = tone { if sy.tone != 0 { return None; } esy.tone = t; }
+            }
+            for _ in 0..l { esy.segs.push(b); }
+            n += 1;
+        }
+        if sy.tone != 0 { text += &sy.tone.to_string(); }
+        exp.push(esy);
+    }
+    // a changed segment that now equals its neighbour would be read as one longer segment: not a case for this box
+    if !hit || exp.iter().zip(w.iter()).any(|(e, o)| run_lengths(e).len() != run_lengths(o).len()) { return None; }
+    Some((text, exp))
+}
+
+fn plus_deromaniser_case(m: usize, ws: &[CW], a: &mut Acc) {
+    let into = vec![format!("+M > {}", PLUS_MATRICES[m].0)];
+    for w in ws {
+        let runs: usize = w.iter().map(|sy| run_lengths(sy).len()).sum();
+        for target in 0..runs {
+            let Some((typed, exp)) = plus_case(w, target, m) else { a.skipped += 1; continue };
+            let exp_text = av::render_word(&word_of(&exp), None);
+            for rl in [RULES[0], RULES[2]] {
+                a.evals += 1;
+                let plain = guarded(budget_for(14, 60) * 2, || asca::run(&[group(rl)], &[exp_text.clone()], &[], &[]).map_err(|e| format!("{:?}", e)));
+                let aliased = guarded(budget_for(14, 60) * 2, || asca::run(&[group(rl)], &[typed.clone()], &into, &[]).map_err(|e| format!("{:?}", e)));
+                match (&plain, &aliased) {
+                    (Out::Ok(x), Out::Ok(y)) if x == y => { if typed.replace('M', "") != exp_text { a.rewritten += 1; } else { a.same += 1; } }
+                    (Out::Ok(_), Out::Ok(_)) => a.viols.push(Viol { key: format!("plus-deromaniser|{}|{}|{}", into[0], rl.join(" ;; "), typed), desc: format!("deromaniser `{}`: typing `{}` must behave as `{}` (the segment before the marker with the payload added); rules {:?}: {:?} vs {:?}", into[0], typed, exp_text, rl, aliased, plain), case: json!({"kind": "plusderom", "m": m, "word": cw_json(w), "target": target}) }),
+                    _ => a.skipped += 1,
+                }
+            }
+        }
+    }
+}
+
 pub fn run() -> i32 {
     let mut r = Report::new("C15");
     let thorough = r.thorough();
@@ -269,6 +334,14 @@ pub fn run() -> i32 {
     par_fold(DEROM.len(), 1, Acc::default, |i, a| deromaniser_case(i, &wd, a), |a| td.merge(a));
     r.boxes.push(json!({"box": "deromanisers", "alias_sets": DEROM.len(), "words": wd.len(), "comparisons": td.evals, "both_ok": td.rewritten, "both_err": td.same, "skipped": td.skipped}));
     r.guard(td.rewritten > 1_000, "deromanisers: more than 1000 encoded words compared");
+    // `+` deromanisers: every matrix x every word of W(I3,3) (long and overlong segments, stress, tone) x every segment position
+    let wp: Vec<CW> = { let inv: Vec<SegBits> = ["t", "a", "n"].iter().map(|t| seg(t)).collect(); let mut v = vec![];
+        for (k, w) in word_space(&inv, 3).into_iter().enumerate() { v.push(w.clone()); let mut x = w.clone(); for (i, sy) in x.iter_mut().enumerate() { sy.stress = ((k + i) % 3) as u8; sy.tone = [0, 5, 51][(k / 2 + i) % 3]; } v.push(x); } v };
+    let mut tp = Acc::default();
+    par_fold(PLUS_MATRICES.len(), 1, Acc::default, |i, a| plus_deromaniser_case(i, &wp, a), |a| tp.merge(a));
+    r.boxes.push(json!({"box": "`+` deromanisers with a bare matrix (features, length, stress, tone) after every segment of every word", "matrices": PLUS_MATRICES.len(), "words": wp.len(), "comparisons": tp.evals, "payload_changes_word": tp.rewritten, "payload_changes_nothing": tp.same, "skipped": tp.skipped}));
+    r.guard(tp.rewritten > 5_000, "`+` deromanisers: more than 5000 words changed by the payload");
+    td.merge(tp);
     r.evaluations = tr.evals + td.evals + tg.evals + tt.evals; r.transitions = r.evaluations * 2; r.validated = tr.rewritten + tr.same + td.rewritten + td.same + tg.rewritten + tg.same + tt.rewritten + tt.same; r.nontrivial = tr.rewritten + td.rewritten + tg.rewritten + tt.rewritten;
     let mut outs = tr.outs.clone(); outs.extend(td.outs.iter()); r.states = outs;
     r.sample(json!({"romaniser": jobs[3].0, "word": show_cw(&ws[100]), "model": romanise(&ws[100], &jobs[3].1)}));
@@ -278,6 +351,13 @@ pub fn run() -> i32 {
 }
 
 pub fn replay(case: &Value) -> Result<String, String> {
+    if case["kind"].as_str() == Some("plusderom") {
+        let w = cw_from_json(&case["word"]).ok_or("word")?;
+        let mut a = Acc::default();
+        plus_deromaniser_case(case["m"].as_u64().unwrap_or(0) as usize, &[w], &mut a);
+        let t = case["target"].as_u64().unwrap_or(0);
+        return match a.viols.iter().find(|v| v.case["target"].as_u64() == Some(t)) { Some(v) => Err(v.desc.clone()), None => Ok("the marker adds its payload to the segment before it".into()) };
+    }
     if case["kind"].as_str() == Some("tonelen") {
         let text = case["word"].as_str().unwrap_or("").to_string();
         let run = |al: Vec<String>| guarded(500_000, || asca::run(&[], &[text.clone()], &[], &al).map_err(|e| format!("{:?}", e)));
